@@ -45,12 +45,16 @@ CallSlack == 400
 (* Work done inside a single C call (a regular expression match, a C loop) is invisible to the call
    counter; it is recorded as CPU milliseconds of a CPU-limited child process (outcome "killed" when
    the limit struck).  The allowance is four orders of magnitude above what a linear decoder needs. *)
+(* "never builds data unrelated in size to the input": peak allocation while decoding (tracemalloc, same child) *)
+MemKbPerStep == 4
+MemSlackKb == 4096
 CpuMsPerStep == 5
 CpuSlackMs == 1000
 AcceptableWork(rec) ==
     /\ rec.outcome \in {"value", "exception"}
     /\ rec.calls <= CallsPerStep * StepBound(rec.len, rec.siglen) + CallSlack
     /\ rec.cpu_ms <= CpuMsPerStep * StepBound(rec.len, rec.siglen) + CpuSlackMs
+    /\ rec.mem_kb <= MemKbPerStep * StepBound(rec.len, rec.siglen) + MemSlackKb
 
 (* "an exception costs the peer only its own connection": decoding is a function of the bytes alone.  A
    recorded pair [before, after] = what a valid message decoded to before and after a run of hostile inputs
